@@ -394,7 +394,7 @@ def trigger(vals, f):
     if op == "cc":
         a, s = vals[I(1)], unhx(f[2])
         if 0 in a or any(c >= 0x80 for c in a) or any(c >= 0x80 for c in s):
-            return "C48-cstring-compare-signed-and-nul"
+            return "cc"        # resolved by classify() from the value the code returned
     return None
 
 
@@ -428,7 +428,42 @@ def classify(line, impl, why):
             ref_apply(vals, tok.split(","))
         except Throw:
             vals = before
-    return trigger(vals, ops[k].split(","))
+    t = trigger(vals, ops[k].split(","))
+    if t == "cc":
+        f = ops[k].split(",")
+        try:
+            got = impl.split(" ")[k].split("|")[0]
+        except Exception:
+            return None
+        a, s, ci, n = vals[int(f[1])], unhx(f[2]), int(f[3]), int(f[4])
+        if got == sgn(cstring_compare(a, s, ci, n, signed=False)):
+            return "C48-cstring-compare-stops-at-nul"      # what an unsigned-char C-string comparison answers
+        if got == sgn(cstring_compare(a, s, ci, n, signed=True)):
+            return "C48-cstring-compare-signed"
+        return None
+    return t
+
+
+def cstring_compare(a, s, ci, n, signed):
+    """strncmp-like comparison of the C-string view of `a` (ends at its first NUL) with the C string `s`, at most n characters"""
+    def val(c):
+        if signed and c >= 128:
+            c -= 256
+        if ci:
+            if c == -1:
+                return -1
+            c &= 0xff
+            return c + 32 if 65 <= c <= 90 else c
+        return c
+    a = a.split(b"\0")[0]
+    x, y = a[:n] + b"\0", s[:n] + b"\0"
+    for k in range(min(n, max(len(x), len(y)))):
+        p = x[k] if k < len(x) else 0
+        q = y[k] if k < len(y) else 0
+        d = val(p) - val(q)
+        if d or p == 0:
+            return d
+    return 0
 
 
 # ------------------------------------------------------------------------------------------------------------------
@@ -495,8 +530,14 @@ class Gen:
     def emit(self, tok):
         f = tok.split(",")
         t = trigger(self.vals, f)
+        if t == "cc":
+            t = "C48-cstring-compare-signed" if ("C48-cstring-compare-signed" in self.avoid or "C48-cstring-compare-stops-at-nul" not in self.avoid) else "C48-cstring-compare-stops-at-nul"
+            if not ({"C48-cstring-compare-signed", "C48-cstring-compare-stops-at-nul"} & self.avoid):
+                t = None
         if t and t in self.avoid:
             return False
+        if f[0] in ("lo", "up", "tr") and len(self.vals[int(f[1])]) > 2000:
+            return False     # per-byte copy-on-write checks: quadratic in the list model, nothing new beyond 2 KB
         before = list(self.vals)
         try:
             ref_apply(self.vals, f)
